@@ -30,6 +30,7 @@ func runC14(c *Ctx) {
 	c14R5(c, "C14.R5")
 	c14R6(c, "C14.R6")
 	c14R7(c, "C14.R7")
+	c14R8(c, "C14.R8")
 	c.importing = "C02"
 	c02R6(c, "C02.R6")
 	c.importing = ""
@@ -37,6 +38,12 @@ func runC14(c *Ctx) {
 	// other goroutine reuses meanwhile (the UDP relay loop of RouteUDP is one of the relay sites of this rule)
 	c.importing = "C01"
 	c01R4(c, "C01.R4")
+	// a datagram is one frame on both write paths: the window ReadFrom reads an upstream datagram into and the payload
+	// Write accepts are the same per-frame maximum (a shorter window silently truncates datagrams the frame could carry),
+	// placed where the encoder is told the payload is
+	c.importing = "C04"
+	c04R4(c, "C04.R4")
+	c04R5(c, "C04.R5")
 	c.importing = ""
 }
 
